@@ -13,6 +13,7 @@ mod c14;
 mod c12;
 mod c18;
 mod memclient;
+mod c19;
 mod c20;
 
 fn main() {
@@ -40,6 +41,9 @@ fn run(name: &str, args: &Value) -> Value {
     match name {
         "c07_ws" => c07::ws(args),
         "c07_http" => c07::http(args),
+        "c19_chunking" => c19::chunking(args),
+        "c19_leading_ws" => c19::leading_ws(args),
+        "c19_content_types" => c19::content_types(args),
         "c20_script" => c20::script(args),
         "c20_tuple" => c20::tuple(args),
         "c18_lifecycle" => c18::lifecycle(args),
